@@ -1069,7 +1069,9 @@ func TestWire(t *testing.T) {
 			// re-check rule (§1.6): the same case once more with the doubled budget
 			out2 := playWire(wc, 2*wireWatchdog)
 			if out2.timedOut != "" {
-				t.Fatalf("VERIF-VIOLATION C11: no answer: %s; on re-check with the doubled budget: %s\n%s", out.timedOut, out2.timedOut, wc.describe(out2))
+				// a handler that is stuck (or spins) stays behind in this process and in the server it belongs to: every
+				// shrinking attempt would wait for it again, so the run ends here (see abortRun)
+				abortRun(fmt.Sprintf("VERIF-VIOLATION C11: no answer: %s; on re-check with the doubled budget: %s\n%s", out.timedOut, out2.timedOut, wc.describe(out2)))
 			}
 
 			if out2.violation == "" {
